@@ -6,6 +6,8 @@ import Rscp.Wire
 import Rscp.Model.Codec
 import Rscp.Spec.Frame
 import Driver.Hist
+import Driver.Build
+import Driver.Vocab
 import Rscp.Model.Receive
 import Rscp.Model.Config
 import Rscp.Props.C05Defs
@@ -24,6 +26,8 @@ def parseHexList : List String → Option (List (List Byte))
 
 def step (line : String) : String :=
   if line.startsWith "hist " then Driver.runHist line else
+  if line.startsWith "builds " then Driver.runBuilds line else
+  if line.startsWith "build" then Driver.runBuild line else
   match line.splitOn " " with
   | ["dec", h] =>
     match bytesOfHex h with
@@ -76,6 +80,10 @@ def step (line : String) : String :=
       | .err e => "err " ++ errName e
       | .panic => "panic"
     | _, _, _ => "bad-op"
+  | ["tag", n] => match n.toNat? with | some t => Driver.tagLine t | none => "bad-op"
+  | ["tagstr", h] => Driver.tagStrLine h
+  | ["dt", n] => match n.toNat? with | some d => Driver.dtLine d | none => "bad-op"
+  | ["codes"] => Driver.codesLine
   | ["crc", h] =>
     match bytesOfHex h with
     | some bs => toString (Crc.crc32 bs)
